@@ -2,6 +2,7 @@
 
 from __future__ import annotations
 
+import re
 
 from dippy.cli import Classification, HandlerContext
 from dippy.core.sql import is_readonly_sql
@@ -14,19 +15,29 @@ _SQLITE_WRITE = frozenset(
 )
 
 
+# SQLite reads $name(...), @name(...), :name(...) and #name(...) as ONE variable token whose
+# parenthesised part may contain quote and comment characters; the generic stripper cannot see that.
+_TCL_VARIABLE = re.compile(r"[$@:#](?:[A-Za-z0-9_$\x80-\U0010ffff]|::)*\(")
+# VACUUM INTO 'file' creates a database file even from a read-only connection
+_VACUUM = re.compile(r"\bvacuum\b", re.IGNORECASE)
+# Functions of the sqlite3 shell that write files or load code
+_SHELL_FUNCTION = re.compile(r"\b(?:writefile|edit|load_extension)\s*\(", re.IGNORECASE)
+
+
+def _classify_sql(part: str) -> bool | None:
+    if _TCL_VARIABLE.search(part) or _SHELL_FUNCTION.search(part):
+        return None
+    return is_readonly_sql(part, extra_write=_SQLITE_WRITE)
+
+
 def classify(ctx: HandlerContext) -> Classification:
     tokens = ctx.tokens
-    # Help/version
-    if any(t in ("-help", "--help", "-version") for t in tokens):
-        return Classification("allow", description="sqlite3 help/version")
-
-    # Check for -readonly or -safe flags - always safe
-    if "-readonly" in tokens or "-safe" in tokens:
-        return Classification("allow", description="sqlite3 (read-only mode)")
-
-    # Check for -init (runs a script file - unknown content)
+    # Check for -init (runs a script file - unknown content, before any other option is acted on)
     if "-init" in tokens:
         return Classification("ask", description="sqlite3 (init script)")
+    help_flag = False
+    readonly_flag = False
+    cmd_seen = False
 
     # Extract SQL from command line
     # sqlite3 [OPTIONS] [FILENAME [SQL...]]
@@ -67,6 +78,11 @@ def classify(ctx: HandlerContext) -> Classification:
             "-version",
             "-vfstrace",
         ):
+            # Flags count only in option position (not as the argument of another option)
+            if token in ("-help", "-version"):
+                help_flag = True
+            if token in ("-readonly", "-safe"):
+                readonly_flag = True
             i += 1
             continue
         # Skip option flags that take one argument
@@ -88,6 +104,7 @@ def classify(ctx: HandlerContext) -> Classification:
         ):
             if token == "-cmd" and i + 1 < len(tokens):
                 sql_parts.append(tokens[i + 1])
+                cmd_seen = True
             i += 2
             continue
         # -lookaside takes TWO arguments: SIZE N
@@ -97,6 +114,8 @@ def classify(ctx: HandlerContext) -> Classification:
         # This should be either filename or SQL
         if token.startswith("-"):
             # Unknown option
+            if token == "--help":
+                help_flag = True
             i += 1
             continue
         if not filename_seen:
@@ -108,12 +127,23 @@ def classify(ctx: HandlerContext) -> Classification:
         sql_parts.append(token)
         i += 1
 
+    # Help/version: the shell exits there, but -cmd arguments have already run by then
+    if help_flag and not cmd_seen:
+        return Classification("allow", description="sqlite3 help/version")
+
+    # -readonly or -safe: the database cannot be written, but dot-commands and shell functions still act
+    if readonly_flag and not any(
+        p.startswith(".") or _SHELL_FUNCTION.search(p) or _VACUUM.search(p)
+        for p in sql_parts
+    ):
+        return Classification("allow", description="sqlite3 (read-only mode)")
+
     # No SQL found - interactive mode
     if not sql_parts:
         return Classification("ask", description="sqlite3 (interactive)")
 
     # Multiple arguments are run as separate statements: each must be read-only
-    results = [is_readonly_sql(part, extra_write=_SQLITE_WRITE) for part in sql_parts]
+    results = [_classify_sql(part) for part in sql_parts]
     if all(r is True for r in results):
         readonly = True
     elif any(r is False for r in results):
